@@ -24,6 +24,9 @@ type C15Pod struct {
 	Labels          map[string]string
 	Port            int
 	PortName        string
+	// OwnLabels: the pod keeps its own labels although its owner has other pods (the engine keys cached verdicts by
+	// owner AND label set, precisely so that this is allowed)
+	OwnLabels bool `json:",omitempty"`
 }
 
 type C15Op struct {
@@ -53,6 +56,14 @@ func genC15Pod(t *rapid.T, l string) C15Pod {
 	p := C15Pod{Ns: rapid.SampledFrom(c15Ns).Draw(t, l+"ns"), Name: name, Labels: genLabels(t, l+"pl", 2), Port: rapid.SampledFrom([]int{80, 81}).Draw(t, l+"port"), PortName: "http"}
 	if name != "c-1" { // most pods have owners: only those are cached
 		p.Owner = name[:1]
+	}
+	if rapid.IntRange(0, 3).Draw(t, l+"longlabels") == 0 {
+		// label sets that agree on a long prefix of their sorted rendering and differ late
+		p.Labels = map[string]string{"a": "x1", "ab": "x1", "app": rapid.SampledFrom([]string{"x1", "x2"}).Draw(t, l+"lateapp")}
+		if rapid.Bool().Draw(t, l+"latetier") {
+			p.Labels["tier"] = rapid.SampledFrom([]string{"web", "db"}).Draw(t, l+"latetierv")
+		}
+		p.OwnLabels = rapid.Bool().Draw(t, l+"ownlabels")
 	}
 	return p
 }
@@ -310,10 +321,19 @@ func checkC15(c *C15Case, st *VStats) *VFailure {
 	}
 	insPod := func(p C15Pod) (bool, *VFailure) {
 		// replicas of one owner are template-identical (DESIGN §3): derive from the owner's existing pods
-		if p.Owner != "" {
-			for k, q := range m.pods {
-				if k != p.key() && q.Ns == p.Ns && q.Owner == p.Owner {
+		if p.Owner != "" && !p.OwnLabels {
+			for _, k := range sortedKeysOf(m.pods) {
+				if q := m.pods[k]; k != p.key() && q.Ns == p.Ns && q.Owner == p.Owner {
 					p.Labels, p.Port = q.Labels, q.Port
+				}
+			}
+		}
+		if p.Owner != "" {
+			// pods of one owner that carry the same labels are copies of one template: same ports (the engine keys its
+			// cache by owner and label set on that assumption)
+			for _, k := range sortedKeysOf(m.pods) {
+				if q := m.pods[k]; k != p.key() && q.Ns == p.Ns && q.Owner == p.Owner && fmt.Sprint(q.Labels) == fmt.Sprint(p.Labels) {
+					p.Port = q.Port
 				}
 			}
 		}
